@@ -30,6 +30,10 @@ def snap_writer(self):
         hdr = {"dt": S.f(self.scenario.dt), "scenario_id": S.snap_scenario_id(self.scenario.scenario_id),
                "author": S.leaf(self.author), "affiliation": S.leaf(self.affiliation), "source": S.leaf(self.source),
                "tags": sorted(t.name for t in self.tags), "location": S.snap_location(self.location)}
+        if self.location is None:
+            # both formats require a location: the writers document (with a warning) that the default location is written
+            from commonroad.scenario.scenario import Location
+            hdr["location"] = S.snap_location(Location())
         sc.update(hdr)
         if fmt == "xml":
             # a lanelet without a type is not schema-expressible; the writer documents that it writes 'unknown' instead
